@@ -61,7 +61,7 @@ def model(op, a, b, x):
 
 
 def digest_ops():
-    ops = [dict(op="AddOne", a=0, b=0)] + [dict(op="AddRun", a=k, b=0) for k in (2, 3, 257)]
+    ops = [dict(op="AddOne", a=0, b=0)] + [dict(op="AddRun", a=k, b=0) for k in (2, 257)]
     ops += [dict(op="SetSQN", a=s, b=0) for s in SQN_ARGS]
     ops += [dict(op="SetOverflow", a=o, b=0) for o in OVF_ARGS]
     ops += [dict(op="Set", a=o, b=s) for o, s in SET_ARGS]
@@ -299,7 +299,7 @@ def run(c):
     c.assumptions += ["the counter is used sequentially (one event per call); the driver performs no reads of its own between the calls of a history",
                       "states are placed through Set() or the verif raw hook with values < 2^24 (a raw word with a non-zero top octet is unreachable through the public API and is not judged)",
                       ("digest conformance over all 2^24 values" if thorough else "digest conformance over %d of 256 chunks in quick (all in thorough)" % len(chunks))
-                      + " for AddOne, runs of 2, 3 and 257 increments, the reads, SetSQN/SetOverflow/Set with boundary arguments"]
+                      + " for AddOne, runs of 2 and 257 increments, the reads, SetSQN/SetOverflow/Set with boundary arguments"]
 
 
 if __name__ == "__main__":
